@@ -11,7 +11,8 @@ import (
 // walks over Catalogue; they are part of CatalogueAll only.
 //
 //	index.autoindex.replace, column.charset.modify.notable, column.collation.modify.notable,
-//	column.default.case, column.default.cast, check.add.colname, table.autoincrement.add / .drop
+//	column.default.case, column.default.cast, check.add.colname, table.autoincrement.add / .drop,
+//	index.autosummarize, column.generated.spelling, fk.positional.permute / .permute.action / .append
 //	                      see autoIndexEdits, charsetNoTableEdits, defaultCaseEdits, defaultCastEdits,
 //	                      checkColumnNameEdits
 //	pk.parts.shrink.null  the last column of a composite primary key leaves the key and becomes nullable
@@ -46,8 +47,150 @@ func ExtraCatalogue(m *Model) []Edit {
 		c.defaultCastEdits(t)
 		c.checkColumnNameEdits(t)
 		c.sqliteAutoIncEdits(t)
+		c.brinParamEdits(t)
+		c.generatedSpellingEdits(t)
+		c.positionalFKEdits(t)
 	}
 	return c.out
+}
+
+// brinParamEdits (PostgreSQL): index.autosummarize — the autosummarize storage parameter of a BRIN index
+// is toggled alone, whatever pages_per_range holds (index.pages_per_range of Catalogue toggles the other
+// parameter alone): ModifyIndex[Attr].
+func (c *catalogue) brinParamEdits(t *Table) {
+	if c.d != Postgres {
+		return
+	}
+	n := t.Name
+	for _, idx := range t.Indexes {
+		if idx.Type == "BRIN" {
+			in := idx.Name
+			c.add("index.autosummarize", n, in, fmt.Sprint(!idx.AutoSummarize), modIdx(n, in, schema.ChangeAttr), func(m *Model) {
+				x := m.Table(n).Index(in)
+				x.AutoSummarize = !x.AutoSummarize
+			})
+		}
+	}
+}
+
+// generatedSpellingEdits (MySQL, SQLite): column.generated.spelling — only the SPELLING of the storage
+// kind of a generated column changes (VIRTUAL <-> not stated, STORED <-> PERSISTENT): no change at all.
+// Together with column.generated.kind of Catalogue this gives "" vs STORED, PERSISTENT vs VIRTUAL, ….
+func (c *catalogue) generatedSpellingEdits(t *Table) {
+	if c.d == Postgres {
+		return
+	}
+	n := t.Name
+	for _, col := range t.Columns {
+		g := col.Generated
+		if g == nil || g.Stored && c.d != MySQL {
+			continue
+		}
+		cn, alt := col.Name, "empty"
+		if g.Stored {
+			alt = "persistent"
+		}
+		if generatedKind(c.d, g) == "" || generatedKind(c.d, g) == "PERSISTENT" {
+			alt = ""
+		}
+		c.add("column.generated.spelling", n, cn, alt, nil, func(m *Model) { m.Table(n).Column(cn).Generated.Spelling = alt })
+	}
+}
+
+// inPositionalFK reports whether column col of t is a column or a referenced column of a SQLite foreign
+// key with a positional symbol: such keys are identified by their columns, which are therefore pinned.
+func inPositionalFK(m *Model, t *Table, col string) bool {
+	if m.Dialect != SQLite {
+		return false
+	}
+	for _, o := range m.Tables {
+		for _, f := range o.FKs {
+			if !isUint(f.Name) {
+				continue
+			}
+			for i := range f.Cols {
+				if o == t && f.Cols[i] == col || f.RefTable == t.Name && f.RefCols[i] == col {
+					return true
+				}
+			}
+		}
+	}
+	return false
+}
+
+// positionalFKEdits (SQLite): a table whose foreign keys carry positional symbols ("0", "1", …: unnamed
+// keys as inspection reports them) lists the same keys in another order, so every key gets the symbol of
+// its new position:
+//
+//	fk.positional.permute         nothing else changes: no change at all
+//	fk.positional.permute.action  and the key that is now first changes its ON DELETE action: one
+//	                              ModifyForeignKey[DeleteAction] (under its new symbol)
+//	fk.positional.append          a key is appended under the next position: one AddForeignKey
+func (c *catalogue) positionalFKEdits(t *Table) {
+	if c.d != SQLite || len(t.FKs) < 2 {
+		return
+	}
+	for i, f := range t.FKs {
+		if f.Name != fmt.Sprint(i) {
+			return
+		}
+	}
+	n, k := t.Name, len(t.FKs)
+	permute := func(m *Model, mode string) []*ForeignKey {
+		x := m.Table(n)
+		fks := append([]*ForeignKey(nil), x.FKs...)
+		if mode == "reverse" {
+			for i, j := 0, len(fks)-1; i < j; i, j = i+1, j-1 {
+				fks[i], fks[j] = fks[j], fks[i]
+			}
+		} else {
+			fks = append(fks[1:], fks[0])
+		}
+		for i, f := range fks {
+			f.Name = fmt.Sprint(i)
+		}
+		x.FKs = fks
+		return fks
+	}
+	for _, mode := range []string{"rotate", "reverse"} {
+		if mode == "reverse" && k == 2 {
+			continue // same as rotate
+		}
+		mode := mode
+		c.add("fk.positional.permute", n, "", mode, nil, func(m *Model) { permute(m, mode) })
+		// the key that becomes first: rotate -> old second, reverse -> old last
+		first := t.FKs[1]
+		if mode == "reverse" {
+			first = t.FKs[k-1]
+		}
+		act := "CASCADE"
+		if action(c.d, first.OnDelete) == "CASCADE" {
+			act = "RESTRICT"
+		}
+		c.add("fk.positional.permute.action", n, "0", mode+":"+act, modFK(n, "0", schema.ChangeDeleteAction), func(m *Model) { permute(m, mode)[0].OnDelete = act })
+	}
+	inFK := map[string]bool{}
+	for _, f := range t.FKs {
+		for _, col := range f.Cols {
+			inFK[col] = true
+		}
+	}
+	for _, r := range c.m.Tables {
+		p := pkTarget(r)
+		if p == nil {
+			continue
+		}
+		for _, col := range t.Columns {
+			if inFK[col.Name] || r == t && col.Name == p.Name || !col.Type.Equal(fkColType(p.Type)) || col.Generated != nil || col.AutoInc {
+				continue
+			}
+			rn, pn, cn, sym := r.Name, p.Name, col.Name, fmt.Sprint(k)
+			c.add("fk.positional.append", n, sym, cn+"->"+rn, []Desc{{Kind: "AddForeignKey", Table: n, Object: sym}}, func(m *Model) {
+				m.Table(n).FKs = append(m.Table(n).FKs, &ForeignKey{Name: sym, Cols: []string{cn}, RefTable: rn, RefCols: []string{pn}})
+			})
+			return
+		}
+	}
 }
 
 // sqliteAutoIncEdits: table.autoincrement.add / .drop — the single-column INTEGER PRIMARY KEY of a SQLite
@@ -287,6 +430,50 @@ func ExtraPool(d Dialect) []*Model {
 				PK: &PrimaryKey{Cols: []string{"c1"}},
 			}))
 	}
+	if d != Postgres {
+		// generated columns whose storage kind is spelled in every way the DSL allows.
+		gen := &Table{Name: "t1",
+			Columns: []*Column{Col("c1", ty.BigInt()), Col("c2", ty.Int()), Col("c3", ty.Int(), Nullable()),
+				Col("c4", ty.Int(), Nullable(), Gen("c2 + 1", false, "c2"), genSpelling("empty")), Col("c5", ty.Int(), Nullable(), Gen("c2 + 2", false, "c2")),
+				Col("c6", ty.Int(), Nullable(), Gen("c2 + 3", true, "c2"))},
+			PK: &PrimaryKey{Cols: []string{"c1"}},
+		}
+		if d == MySQL {
+			gen.Columns = append(gen.Columns, Col("c7", ty.Int(), Nullable(), Gen("c2 + 4", true, "c2"), genSpelling("persistent")))
+		}
+		out = append(out, newModel(d, "generated-spelling", gen))
+	}
+	if d == Postgres {
+		// BRIN indexes with every combination of default / custom storage parameters.
+		out = append(out, newModel(d, "brin",
+			&Table{Name: "t1",
+				Columns: []*Column{Col("c1", ty.BigInt()), Col("c2", ty.Time()), Col("c3", ty.Int()), Col("c4", ty.Int(), Nullable()), Col("c5", ty.BigInt(), Nullable())},
+				PK:      &PrimaryKey{Cols: []string{"c1"}},
+				Indexes: []*Index{
+					{Name: "i1", Type: "BRIN", Parts: []Part{P("c2")}},
+					{Name: "i2", Type: "BRIN", PagesPerRange: 64, Parts: []Part{P("c3")}},
+					{Name: "i3", Type: "BRIN", PagesPerRange: 64, AutoSummarize: true, Parts: []Part{P("c4")}},
+					{Name: "i4", Type: "BRIN", AutoSummarize: true, Parts: []Part{P("c5")}},
+				},
+			}))
+	}
+	if d == SQLite {
+		// unnamed foreign keys as inspection reports them: symbols are positions.
+		out = append(out, newModel(d, "fk-positional",
+			&Table{Name: "t1", Columns: []*Column{Col("c1", ty.Int()), Col("c2", ty.Text(), Nullable())}, PK: &PrimaryKey{Cols: []string{"c1"}}},
+			&Table{Name: "t3", Columns: []*Column{Col("c1", ty.Int())}, PK: &PrimaryKey{Cols: []string{"c1"}}},
+			&Table{Name: "t2",
+				Columns: []*Column{Col("c1", ty.Int()), Col("c2", ty.Int(), Nullable()), Col("c3", ty.Int(), Nullable()), Col("c4", ty.Int(), Nullable()), Col("c5", ty.Int(), Nullable()), Col("c6", ty.Text(), Nullable())},
+				PK:      &PrimaryKey{Cols: []string{"c1"}},
+				FKs: []*ForeignKey{FK("0", []string{"c2"}, "t1", []string{"c1"}, "", "CASCADE"), FK("1", []string{"c3"}, "t1", []string{"c1"}, "CASCADE", "SET NULL"),
+					FK("2", []string{"c4"}, "t3", []string{"c1"}, "", "")},
+			},
+			&Table{Name: "t4",
+				Columns: []*Column{Col("c1", ty.Int()), Col("c2", ty.Int(), Nullable()), Col("c3", ty.Int(), Nullable())},
+				PK:      &PrimaryKey{Cols: []string{"c1"}},
+				FKs:     []*ForeignKey{FK("0", []string{"c2"}, "t4", []string{"c1"}, "", ""), FK("1", []string{"c3"}, "t3", []string{"c1"}, "", "RESTRICT")},
+			}))
+	}
 	switch d {
 	case SQLite:
 		// an inspected table with inline UNIQUE constraints: generated index names.
@@ -405,3 +592,6 @@ func ambiguousDefaults(d Dialect, a, b *Table) string {
 	}
 	return ""
 }
+
+// genSpelling sets the Spelling of the generated column under construction (after Gen).
+func genSpelling(sp string) ColOpt { return func(c *Column) { c.Generated.Spelling = sp } }
